@@ -8,7 +8,7 @@ from .. import cast, sym, lin
 from .common import distinct_enums
 from ..sym import C, fmt, linearize as L
 from ..lin import Lin
-from .regs import Regs, T, strip_cast, size_facts, scan_rule, for_headers
+from .regs import Regs, T, strip_cast, size_facts, scan_rule, for_headers, wrap_free
 
 FLAGS = ('f', T, 'flags')
 
@@ -124,10 +124,20 @@ def rule_a(ck, R, eng, ps):
                        'success leaves INITIALISED=%s DURING_INIT=%s' % (si, sd))
         elif cd == C(E['REG_INIT_TABLE_INVALID']):
             early += 1
-            ok = v == FLAGS and not p.calls()
-            ck.verdict(ok, 'C04.a', key + ':%d' % early, cast.where(p.node) if p.node else where,
-                       'null table/area/entry pointer: refused before the table is touched (outside the configuration space)' if ok else
-                       'TABLE_INVALID after touching the table')
+            tnull = any(c == ('cmp', '==', T, C(0)) for c in p.cond_terms())
+            if tnull:
+                ok = v == FLAGS and not p.calls()
+                ck.verdict(ok, 'C04.a', key + ':%d' % early, cast.where(p.node) if p.node else where,
+                           'null table pointer: refused without touching anything' if ok else 'TABLE_INVALID for a null table after touching it')
+            else:
+                # a table object without area or entry list has no area: initialisation fails, and a table that an earlier
+                # call initialised must not stay usable (re-initialisation history)
+                ok = si == 0 and sd in (0, 'same') and not p.calls()
+                ck.verdict(ok, 'C04.a', key + ':%d' % early, cast.where(p.node) if p.node else where,
+                           'missing area/entry list: refused with INITIALISED cleared' if ok else
+                           'TABLE_INVALID for a table without area/entry list returns with INITIALISED=%s: a table initialised by an earlier call '
+                           'stays marked initialised although this initialisation failed, and every operation keeps working on it '
+                           '(block reads then dereference the null area list)' % si)
         else:
             nfail += 1
             ok = si == 0 and sd == 0
@@ -251,33 +261,44 @@ def rule_cd(ck, R, eng, ps):
         for p in op:
             if not any(c == ('cmp', '<', cur, p_h) for c in p.cond_terms()):
                 bad = bad or 'INVALID_ORDER is not decided by item[i].%s < previous' % fieldname
-        # overlap: cur < previous + size(item[i-1]) strict
-        for p in ov:
-            cs = [c for c in p.cond_terms() if c[0] == 'cmp' and c[1] == '<' and c[2] == cur and c[3] != p_h]
-            okc = False
-            for c in cs:
-                d = L(c[3]) - L(p_h)
-                at = [fmt(a) for a in d.atoms()]
-                if len(at) == 1 and d.c == 0 and list(d.t.values()) == [1]:
-                    atom = list(d.atoms())[0]
-                    # the size must be that of the PREVIOUS item (index i - 1)
+        # overlap: cur < previous + size(item[i-1]) strict - decided by entailment, so that the test may be written as a
+        # difference (cur - previous < size) as well as a sum
+        def size_atoms(p):
+            out = []
+            for c in p.cond_terms():
+                for atom in sym.subterms(c):
                     item = None
                     if arr == 'area' and atom[0] == 'f' and atom[2] == 'size':
                         item = atom[1]
                     if arr == 'entry' and atom[0] == 'i' and 'rds_size' in fmt(atom[1]) and atom[2][0] == 'f' and atom[2][2] == 'type':
                         item = atom[2][1]
-                    if item is not None:
-                        di = L(item) - (L(arrp) + L(i_h) - 1)
-                        if di.is_const() and di.c == 0:
-                            okc = True
-                        else:
-                            bad = bad or ('the overlap test adds the size of item %s to the previous %s; the end of the previous item needs the size of item i-1 '
-                                          '(items of different size are mis-judged: a smaller successor overlapping by one word is accepted, a larger adjacent one rejected)'
-                                          % (fmt(item), fieldname))
+                    if item is not None and (atom, item) not in out:
+                        out.append((atom, item))
+            return out
+
+        def is_prev(item):
+            di = L(item) - (L(arrp) + L(i_h) - 1)
+            return di.is_const() and di.c == 0
+        for p in ov:
+            facts = eng.path_facts(p)
+            okc = False
+            for atom, item in size_atoms(p):
+                if eng.entails(facts, L(cur) - L(p_h) - L(strip_cast(atom)) + 1) or eng.entails(facts, L(cur) - L(p_h) - L(atom) + 1):
+                    if is_prev(item):
+                        okc = True
+                    else:
+                        bad = bad or ('the overlap test adds the size of item %s to the previous %s; the end of the previous item needs the size of item i-1 '
+                                      '(items of different size are mis-judged: a smaller successor overlapping by one word is accepted, a larger adjacent one rejected)'
+                                      % (fmt(item), fieldname))
             if not okc:
                 bad = bad or 'ADDRESS_OVERLAP is not decided by item[i].%s < previous + size(item[i-1]) (strict: adjacency allowed)' % fieldname
             if not any(c == ('cmp', '<=', p_h, cur) for c in p.cond_terms()):
                 bad = bad or 'overlap test not preceded by the order test'
+        for p in lb:
+            facts = eng.path_facts(p)
+            prevs = [atom for atom, item in size_atoms(p) if is_prev(item)]
+            if not any(eng.entails(facts, L(p_h) + L(atom) - L(cur)) for atom in prevs):
+                bad = bad or 'the loop continues without previous + size(item[i-1]) <= item[i].%s established (overlapping or adjacent-by-mistake items pass)' % fieldname
         # continuing path: neither
         for p in lb:
             if not any(c == ('cmp', '<=', p_h, cur) for c in p.cond_terms()):
@@ -505,7 +526,7 @@ def flag_bits(ck, R):
     A flag beyond the field's width can never be set: BIT_SET stores nothing, BIT_ISSET never holds (for DURING_INIT this
     makes every constant register's default fail, i.e. a well-formed table is refused)."""
     u = R.u
-    for prefix, rec in (('REG_TF_', 'RegisterTable'), ('REG_AF_', 'RegisterArea')):
+    for prefix, rec in (('REG_TF_', 'RegisterTable'), ('REG_AF_', 'RegisterArea'), ('REG_EF_', 'RegisterEntry')):
         vals = {n: v for n, v in u.enums.items() if n.startswith(prefix)}
         r = None
         for nm, node in u.records.items():
@@ -544,7 +565,8 @@ def run(ck):
     ck.rule('C04.d', 'predicates: order = cur < prev, overlap = cur < prev + size(prev) strict, prev tracks item i-1; containment = base <= address and address + size <= base + area size, entry linked with offset = address - base')
     ck.rule('C04.e', 'link: first/last/count per area from the run of entries located in it')
     ck.rule('C04.f', 'clear/default: memory-backed areas zeroed before defaults; defaults through the checked setter iff write callback and not SKIP_DEFAULTS; refused default fails initialisation')
-    ck.not_decided += ['the exact accept/reject set over all layouts as a whole', 'address overflow of base + size']
+    ck.rule('C04.g', 'no address sum of the containment test (reg_entry_is_in_memory with its helpers) and of the order/overlap scans of register_init can wrap around 2^32: every outermost 32-bit sum is proved in range from the guards of its path, guards containing an unproved sum give no fact')
+    ck.not_decided += ['the exact accept/reject set over all layouts as a whole']
     R = Regs(ck)
     distinct_enums(ck, R.u, 'C04.c', ('REG_INIT_',), 'include/ufw/register-table.h')
     eng = sym.Engine(R.u, sizeof=R.so, inline={'need_to_load_default'})
@@ -552,6 +574,8 @@ def run(ck):
     scan_rule(R, 'C04.d', 'reg_entry_is_in_memory', 'areas')
     scan_rule(R, 'C04.e', 'ra_first_entry_of_next', 'entries', ('v', 'start'))
     flag_bits(ck, R)
+    wrap_free(R, 'C04.g', 'reg_entry_is_in_memory', inline={'ra_reg_is_part_of', 'ra_addr_is_part_of', 'ra_reg_fits_into'})
+    wrap_free(R, 'C04.g', 'register_init')
     ps = R.paths('register_init', 'C04.a', eng)
     if ps is not None:
         link_gate(ck, R, eng, ps)
